@@ -122,10 +122,10 @@ def t_size_div(rng):
     cfg = rng.random() < 0.4
     head = "@config\nclass Cfg:\n    k: index\n\n" if cfg else ""
     use = "    Cfg.k = 1\n" if cfg else ""
+    asrt = "    assert n <= 32\n" if rng.random() < 0.5 else ""  # with and without an assertion on the size
     body = f"""{head}@proc
 def root(n: size, x: f32[n + 24]):
-    assert n <= 32
-{use}    for i in seq(0, n):
+{asrt}{use}    for i in seq(0, n):
         x[(n - {off}) / {c} + {off // c + 1}] += 1.0
         x[(n + i - {off}) % {off} + 8] = 2.0
 """
